@@ -470,6 +470,53 @@ fn aim_pin(seed: u64, policy: &str) -> Script {
     live.script
 }
 
+/// Every rejected / no-op call shape issued when the cursor sits at, or a few bytes before, a block
+/// or file end (where a call that really wrote would pad or roll over).
+fn aim_noop(seed: u64, policy: &str) -> Script {
+    let mut rng = Rng(seed ^ 0xF6);
+    let queues = names(&mut rng, 3);
+    let mut live = Live::new(format!("aim-noop-{seed}"), policy, queues, seed);
+    live.push(Step::Create { q: 0 });
+    live.push(Step::Create { q: 1 });
+    for _ in 0..2 + live.rng.below(3) {
+        let gap = live.rng.below(9) as usize;
+        let to_file = live.rng.chance(60);
+        live.fill_to(0, gap, to_file);
+        let next = live.last_position(0).map(|last| last + 1).unwrap_or(0);
+        // the no-op shapes, in random order
+        let mut shapes: Vec<Step> = vec![
+            Step::Append { q: 0, pos: None, batch: vec![] },
+            Step::Append { q: 0, pos: Some(next), batch: vec![] },
+            Step::Append { q: 0, pos: Some(next + 5), batch: vec![] },
+            Step::Append { q: 1, pos: None, batch: vec![] },
+            Step::Create { q: 0 },
+            Step::Delete { q: 2 },
+            Step::Truncate { q: 2, p: 3 },
+        ];
+        let retry_payload = live.payload(4);
+        shapes.push(Step::Append { q: 2, pos: None, batch: vec![retry_payload] });
+        if next > 0 {
+            let payload = live.payload(4);
+            shapes.push(Step::Append { q: 0, pos: Some(next - 1), batch: vec![payload] });
+        }
+        if next > 1 {
+            let payload = live.payload(4);
+            shapes.push(Step::Append { q: 0, pos: Some(next - 2), batch: vec![payload] });
+        }
+        while !shapes.is_empty() {
+            let idx = live.rng.below(shapes.len() as u64) as usize;
+            let step = shapes.remove(idx);
+            live.push(step);
+        }
+        if live.rng.chance(40) {
+            live.push(Step::Restart);
+        }
+        let payload = live.payload(10);
+        live.push(Step::Append { q: 1, pos: None, batch: vec![payload] });
+    }
+    live.script
+}
+
 pub fn is_aimed(profile: &str) -> bool {
     profile.starts_with("aim-")
 }
@@ -482,6 +529,7 @@ pub fn generate(profile: &str, seed: u64, policy: &str) -> Script {
         "aim-batch" => aim_batch(seed, policy),
         "aim-block" => aim_block(seed, policy),
         "aim-pin" => aim_pin(seed, policy),
+        "aim-noop" => aim_noop(seed, policy),
         other => panic!("unknown aimed profile {other}"),
     };
     mrecordlog::verif::take_events();
